@@ -93,7 +93,7 @@ func c02CommitRecordWriters(c *Check) {
 				}
 				n++
 				c.SawFunc(fi.Name())
-				key := fi.Obj.Name() + ":" + kind + ":.meta"
+				key := refName(fi.Obj) + ":" + kind + ":.meta"
 				msg := ""
 				switch kind {
 				case "rename":
